@@ -52,7 +52,12 @@ pub fn corr(ctx: &mut Ctx) {
                     if v < naive[k] {
                         naive[k] = v;
                     }
-                    ctx.line(&format!("mt upd t {} {}", k, fhx(v)), &dump(&t));
+                    // thorough tier: the whole tracker every 8th step, the maximum only in between (volume)
+                    if ctx.quick() || step % 8 == 0 || step + 1 == len {
+                        ctx.line(&format!("mt upd t {} {}", k, fhx(v)), &dump(&t));
+                    } else {
+                        ctx.line(&format!("mt updq t {} {}", k, fhx(v)), &fhx(t.get_max_value()));
+                    }
                 }
                 Err(msg) => {
                     ctx.line(&format!("mt upd t {} {}", k, fhx(v)), "PANIC");
